@@ -1,6 +1,6 @@
 (* wire encoding of C09 cases; exported functions are [x_*] : val -> val *)
 From Coq Require Import ZArith List Bool.
-From V Require Import Val Bytes C09Adts C09TsFrame C09TsWriter C09TsDemux C09TsHls.
+From V Require Import Val Bytes C09Adts C09Asc C09TsFrame C09TsWriter C09TsDemux C09TsHls.
 Import ListNotations.
 Open Scope Z_scope.
 
@@ -34,11 +34,24 @@ Definition dec_event (v : val) : mevent :=
 
 (* mux case = (mode sps pps asc events); sps pps = the meta when the muxer is created;
    mode only selects the Go entry point *)
+(* model side: the configuration bytes go through the model of Decode / ToAdtsHeader *)
 Definition c09_asc (c : val) : asc :=
-  match asc_decode2 (as_bytes (nthv 3 c)) with
+  match asc_of_config (as_bytes (nthv 3 c)) with
   | Some a => a
   | None => {| asc_obj := 0; asc_sidx := 0; asc_chan := 0 |}
   end.
+(* oracle side: the case also carries the description of the configuration (aot sfi chan
+   signalling ext_sfi) at index 7; the expected ADTS fields come from it (asc_of_env), never from
+   the decoder model; it must be well-formed and encode to exactly the bytes given to Go *)
+Definition dec_env (v : val) : asc_env :=
+  {| e_aot := as_int (nthv 0 v); e_sfi := as_int (nthv 1 v); e_chan := as_int (nthv 2 v);
+     e_sig := as_int (nthv 3 v); e_ext_sfi := as_int (nthv 4 v) |}.
+Definition c09_env (c : val) : asc_env := dec_env (nthv 7 c).
+Definition c09_env_ok (c : val) : bool :=
+  wf_env (c09_env c) && bytes_eqb (asc_encode (c09_env c)) (as_bytes (nthv 3 c)).
+Definition c09_asc_spec (c : val) : asc := asc_of_env (c09_env c).
+Definition x_C09_asc_bytes (v : val) : val := VB (asc_encode (dec_env v)).
+
 Definition c09_events (c : val) : list mevent := map dec_event (as_list (nthv 4 c)).
 Definition c09_aframes (c : val) : list aframe :=
   annotate (as_bytes (nthv 1 c)) (as_bytes (nthv 2 c)) (c09_events c).
@@ -54,7 +67,7 @@ Definition x_C09_mux_ok (v : val) : val :=
   let c := nthv 0 v in let obs := nthv 1 v in
   vbool (match obs with
          | VL [VI 0; VB out] =>
-             ok_muxa (c09_asc c) (c09_aframes c) out
+             c09_env_ok c && ok_muxa (c09_asc_spec c) (c09_aframes c) out
          | _ => false
          end).
 
@@ -64,7 +77,7 @@ Definition x_C09_mux_loose_ok (v : val) : val :=
   let c := nthv 0 v in let obs := nthv 1 v in
   vbool (match obs with
          | VL [VI 0; VB out] =>
-             ok_muxa (c09_asc c) (c09_aframes c) out
+             c09_env_ok c && ok_muxa (c09_asc_spec c) (c09_aframes c) out
          | VL [VI 1] => true
          | _ => false
          end).
@@ -93,7 +106,7 @@ Definition x_C09_hls_ok (v : val) : val :=
   let auds := map a_c (filter (fun f => negb (c_video (a_c f)) && asrc_carried f) fs) in
   vbool (match obs with
          | VL [VI 0; VL segs] =>
-             ok_hls (c09_asc c) vids auds (map as_bytes segs)
+             c09_env_ok c && ok_hls (c09_asc_spec c) vids auds (map as_bytes segs)
          | _ => false
          end).
 
@@ -124,5 +137,27 @@ Definition x_C09_e2e_ok (v : val) : val :=
   let vids := removelast (filter (fun f => c_video (a_c f) && asrc_carried f) fs) in
   vbool (match obs with
          | VL [VI 0; VL segs] => ok_hls_es vids (map as_bytes segs)
+         | _ => false
+         end).
+
+(* component: configuration bytes -> the ADTS header ToAdtsHeader builds for a payload of n bytes,
+   (1) when Decode fails.  case = (bytes n) *)
+Definition x_C09_asc_header (c : val) : val :=
+  match asc_decode (as_bytes (nthv 0 c)) with
+  | Some d => if asc_outside d then VL [VI 2]     (* not covered by the model *)
+              else VL [VI 0; VB (to_adts_header (asc_effective d) (as_int (nthv 1 c)))]
+  | None => VL [VI 1]
+  end.
+(* its oracle, for configurations described by an env: (bytes n env) *)
+Definition x_C09_asc_header_ok (v : val) : val :=
+  let c := nthv 0 v in let obs := nthv 1 v in
+  let e := dec_env (nthv 2 c) in let n := as_int (nthv 1 c) in
+  vbool (wf_env e && bytes_eqb (asc_encode e) (as_bytes (nthv 0 c)) &&
+         match obs with
+         | VL [VI 0; VB h] =>
+             match adts_parse1 (h ++ repeat_byte 0 n) with
+             | Some (fr, []) => adts_frame_eqb fr (adts_expect (asc_of_env e) (repeat_byte 0 n))
+             | _ => false
+             end
          | _ => false
          end).
